@@ -60,6 +60,9 @@ def summarize(spec, case, res, tier):
     return s
 
 
+_WORKER_HISTORY = []      # seeds this worker process has executed so far, in order (across chunks)
+
+
 def _run_chunk(args):
     check_id, tier, seeds, per_run_timeout = args
     from . import checks
@@ -77,8 +80,10 @@ def _run_chunk(args):
             if not res.ok:
                 s['case'] = case
                 s['tape'] = res.tape
+                s['history'] = list(_WORKER_HISTORY)
             elif len(out) < 2:
                 s['sample'] = spec.sample(case, res)
+            _WORKER_HISTORY.append(seed)
             out.append(s)
         except RunTimeout:
             out.append({'seed': seed, 'ok': False, 'viol': [], 'herr': f'timeout {per_run_timeout}s',
@@ -306,6 +311,9 @@ def replay_file(path, spec=None):
     from . import checks
     spec = spec or checks.get(doc['property'])
     case = doc['case']
+    for hseed in doc.get('history_seeds', []):
+        # history-dependent violation: the earlier simulated runs of the same process are part of the replay
+        spec.execute(spec.get_case(hseed, doc.get('tier', 'quick')))
     res = spec.execute(case)
     classes = [v[0] for v in res.violations]
     return (doc['class'] in classes), res, doc
@@ -318,3 +326,46 @@ def replay_fresh(path, prop):
     p = subprocess.run([sys.executable, os.path.join(VERIF, 'check.py'), prop, '--replay', path],
                        capture_output=True, text=True, env=envv, timeout=600)
     return p.returncode == 1 and 'VIOLATION' in p.stdout, p.stdout + p.stderr
+
+
+def history_replay(prop, spec, tier, s, vclass, budget_s=240):
+    """A violation that does not reproduce from its own tape in a fresh world may depend on state the library
+    kept from EARLIER runs of the same worker process (a cache that outlives a computation).  Find a short
+    suffix of that worker's history after which the case fails again in a fresh interpreter; returns the path
+    of a replay file that contains the history, or None."""
+    hist = list(s.get('history') or [])
+    if not hist:
+        return None
+    case = dict(s['case'], tape=s['tape'])
+    t0 = time.time()
+    k = 1
+    found = None
+    while time.time() - t0 < budget_s:
+        suffix = hist[-k:]
+        path = write_replay(prop, case, vclass, s['viol'][0][1], f"{s['seed']}-history",
+                            {'history_seeds': suffix, 'tier': tier, 'format': 'dsim-replay-history-1'})
+        ok, _ = replay_fresh(path, prop)
+        if ok:
+            found = suffix
+            break
+        if k >= len(hist):
+            break
+        k = min(len(hist), k * 2)
+    if found is None:
+        return None
+    # greedy reduction of the history while the violation persists
+    i = 0
+    while i < len(found) and len(found) > 1 and time.time() - t0 < budget_s:
+        trial = found[:i] + found[i + 1:]
+        path = write_replay(prop, case, vclass, s['viol'][0][1], f"{s['seed']}-history",
+                            {'history_seeds': trial, 'tier': tier, 'format': 'dsim-replay-history-1'})
+        ok, _ = replay_fresh(path, prop)
+        if ok:
+            found = trial
+        else:
+            i += 1
+    path = write_replay(prop, case, vclass, s['viol'][0][1] + ' [depends on earlier runs in the same process: '
+                        f'{len(found)} predecessor run(s) in the replay file]', f"{s['seed']}-history",
+                        {'history_seeds': found, 'tier': tier, 'format': 'dsim-replay-history-1'})
+    ok, _ = replay_fresh(path, prop)
+    return path if ok else None
